@@ -13,7 +13,8 @@
  *                                                   shape of the task list afterwards
  *         w:<joined>:<done>:<created>:<overlap>:<nodes>:<mem>   for every wait: join.reap events during the
  *                                                   wait, tasks of this cycle whose body has run exactly once
- *                                                   when wait returns, create.init events of the cycle, whether
+ *                                                   when wait returns (with W >= 2 the i-th task of a cycle is
+ *                                                   busy for 30+15i us, so late tasks are still running then), create.init events of the cycle, whether
  *                                                   any two task objects of the cycle overlapped (by address),
  *                                                   entries per list node and size.offset per chunk afterwards
  *         end:<tasks whose body did not run exactly once>
@@ -73,10 +74,22 @@ static void start_runtime(int W) {
 }
 
 /* ---------------- task_group ---------------- */
+#include <time.h>
+static double now_us() {
+  struct timespec ts;
+  clock_gettime(CLOCK_MONOTONIC, &ts);
+  return ts.tv_sec * 1e6 + ts.tv_nsec * 1e-3;
+}
+/* a task body: busy for `delay` microseconds (with two or more workers later tasks of a cycle take
+   longer, so that they are still running on another worker when wait() is reached), then counts */
 template<int P> struct Job {
   int * ctr;
+  int delay;
   char pad[P];
-  void operator()() const { __sync_fetch_and_add(ctr, 1); }
+  void operator()() const {
+    if (delay > 0) { double t0 = now_us(); while (now_us() - t0 < delay) { } }
+    __sync_fetch_and_add(ctr, 1);
+  }
 };
 #define NCLS 6
 #define CLS(X) X(0, 1) X(1, 40) X(2, 100) X(3, 200) X(4, 300) X(5, 600)
@@ -128,9 +141,10 @@ static void run_tg(int W, std::vector<std::string> & ops) {
       live.clear(); cycle_first = ntask; created0 = g_ncreated;
     } else {
       int k = atoi(ops[i].c_str() + 1);
+      int dly = W >= 2 ? 30 + 15 * (int)(ntask - cycle_first) : 0;
       int * c = &(*ctrs)[ntask++];
       switch (k) {
-#define RUN(I, P) case I: { Job<P> j; j.ctr = c; memset(j.pad, 0x5a, sizeof j.pad); tg.run(j); break; }
+#define RUN(I, P) case I: { Job<P> j; j.ctr = c; j.delay = dly; memset(j.pad, 0x5a, sizeof j.pad); tg.run(j); break; }
         CLS(RUN)
 #undef RUN
         default: emit_and_exit("badcase\n", 0);
